@@ -78,6 +78,25 @@ def specs_corpus(tier):
     return s
 
 
+def generated_family(tier, seed):
+    """(seed, count) of the generated-program family of this run: fixed in the quick tier, derived from VERIF_SEED in the thorough tier"""
+    return (0, 6) if tier != "thorough" else (1000 + int(seed or 0), 30)
+
+
+def specs_generated(tier, seed):
+    """translation validation of the compiler on programs produced by the random generator contracts/dsl_gen.py"""
+    from contracts.algorithm_evals import term_names
+    t = 60000 if tier == "thorough" else 10000
+    gs, count = generated_family(tier, seed)
+    s = []
+    for k in range(count):
+        a = f"gen:{gs}:{count}:{k}"
+        for tn in term_names(a):
+            for off in (False, True):
+                s.append((AE, "unit_eval", {"alg_name": a, "term_name": tn, "have_offdiag": off, "timeout_ms": t}))
+    return s
+
+
 def specs_wiring(tier, algs=("main", "nonhermitian")):
     t = 60000 if tier == "thorough" else 10000
     cfgs = [(2, 1, False), (3, 2, True), (1, 1, False)]
